@@ -15,6 +15,7 @@ import (
 	"sort"
 	"strings"
 	"sync"
+	"sync/atomic"
 	"time"
 
 	mqtt "github.com/at-wat/mqtt-go"
@@ -119,6 +120,9 @@ func (e *bcEngine) Gen(rng *rand.Rand, tier string, n int, emit func(string)) {
 	// a very fast broker: the acknowledgement is processed before the request's Write returns
 	emit("conn ack:0:0 fast unsub:5 ua:5 fast pub:1:6 pa:6 fast sub:2:7 sa:7:0102 fast ping pg fast pub:2:8 pr:8 pc:8")
 	emit("conn ack:0:0 pub:1:3 fast unsub:4 ua:4 pa:3 fast pub:2:9 pr:9 fast ping pg pc:9")
+	// PUBCOMP processed before the Write of its PUBREL returns
+	emit("conn ack:0:0 pub:2:5 fastrel pr:5 pc:5 pub:2:6 fastrel pr:6 pc:6")
+	emit("conn ack:0:0 pub:1:3 pub:2:5 pub:2:7 fastrel pr:5 pc:5 pa:3 fastrel pr:7 pc:7")
 	// a PINGRESP that arrives after its Ping gave up must not answer the next Ping (C13: a silent peer stays detectable)
 	emit("conn ack:0:0 ping cancel:1 pg ping")
 	emit("conn ack:0:0 ping cancel:1 pg ping pg ping cancel:3 pg pg ping")
@@ -278,7 +282,15 @@ func (e *bcEngine) Gen(rng *rand.Rand, tier string, n int, emit func(string)) {
 				evs2 = append(evs2, ev)
 			}
 		}
-		emit(strings.Join(evs2, " "))
+		// … and the second half of a QoS 2 exchange: PUBCOMP inside the PUBREL write, where the script has them adjacent
+		var evs3 []string
+		for k, ev := range evs2 {
+			if strings.HasPrefix(ev, "pr:") && k+1 < len(evs2) && evs2[k+1] == "pc:"+ev[3:] && (k == 0 || !strings.HasPrefix(evs2[k-1], "fast")) && rng.Intn(2) == 0 {
+				evs3 = append(evs3, "fastrel")
+			}
+			evs3 = append(evs3, ev)
+		}
+		emit(strings.Join(evs3, " "))
 	}
 }
 
@@ -423,6 +435,7 @@ func (e *bcEngine) Exec(f []string) Result {
 	inited := false
 	fastNext := 0
 	fed := map[int]bool{}        // acknowledgement events already delivered by a "fast" broker
+	relFired := map[int]*int32{} // fastrel: did the armed PUBREL hook fire (keyed by the PUBCOMP event)
 	extraFed := map[int]string{} // fast2: the second acknowledgement event delivered during the request event i
 	for i, ev := range evs {
 		mu.Lock()
@@ -505,9 +518,41 @@ func (e *bcEngine) Exec(f []string) Result {
 		mu.Unlock()
 		t := strings.Split(ev, ":")
 		if fed[i] {
-			t = []string{"already-fed"}
+			if f, ok := relFired[i]; ok && atomic.LoadInt32(f) == 0 {
+				// fastrel was armed but no PUBREL was written (a duplicate PUBREC, a publish that had given up): the
+				// PUBCOMP arrives as an ordinary event
+				tr.mu.Lock()
+				tr.onWrite = nil
+				tr.mu.Unlock()
+				delete(extraFed, i-1)
+			} else {
+				t = []string{"already-fed"}
+			}
 		}
 		switch t[0] {
+		case "fastrel":
+			// a very fast broker, second half of QoS 2: the PUBCOMP (the event after the next `pr:`) is read and processed by the
+			// reader goroutine before the Write of the PUBREL it answers returns to the publishing goroutine
+			if inited && i+2 < len(evs) && strings.HasPrefix(evs[i+1], "pr:") && evs[i+2] == "pc:"+evs[i+1][3:] {
+				if ack := bcAckBytes(evs[i+2]); ack != nil {
+					fed[i+2] = true
+					extraFed[i+1] = evs[i+2]
+					var once sync.Once
+					fired := new(int32)
+					relFired[i+2] = fired
+					tr.mu.Lock()
+					tr.onWrite = func(p []byte) {
+						if len(p) > 0 && p[0] == 0x62 {
+							once.Do(func() {
+								atomic.StoreInt32(fired, 1)
+								tr.feed(ack)
+								tr.waitDrained()
+							})
+						}
+					}
+					tr.mu.Unlock()
+				}
+			}
 		case "fast":
 			fastNext = 1
 		case "fast2":
@@ -731,7 +776,7 @@ func (e *bcEngine) Exec(f []string) Result {
 		if cl.kind == "pub2" {
 			// PUBREC must have come before
 			seen := false
-			for _, e2 := range evs[:cl.retEv] {
+			for _, e2 := range evs[:cl.retEv+1] { // +1: with fastrel the call returns during its PUBREC event
 				if e2 == fmt.Sprintf("pr:%d", cl.id) {
 					seen = true
 				}
@@ -905,6 +950,9 @@ func (e *bcEngine) Exec(f []string) Result {
 				pos = found
 			}
 			if ok && !(cl.done && strings.HasPrefix(cl.ret, "ok")) {
+				if cl.kind == "pub2" {
+					props = append(props, viol("C02", "qos2-exchange-stuck", "QoS 2 publish (call %d, id %d) did not complete (%q) although PUBREC and PUBCOMP both arrived, in that order, after it was made, on a healthy connection: the message's exchange never ends", k, cl.id, cl.ret))
+				}
 				props = append(props, viol("C07", "own-ack-not-honoured", "call %d (%s id %d) is still blocked (or failed: %q) although its own acknowledgement %v arrived after it was made, on a healthy connection", k, cl.kind, cl.id, cl.ret, need))
 			}
 		}
